@@ -237,3 +237,21 @@ def c14d(ctx):
     ok = any(isinstance(s, ast.Assign) and unparse(s.targets[0]) == 'render_layers' and is_call(s.value, 'combined_layers') and
              unparse(s.value.args[0]) == 'self.layers' for s in rn.walk())
     ctx.check(ok, 'LayerRenderer.render:combined-in-order', 'the render list is combined_layers(self.layers, query)', rn)
+
+
+@rule('C14.e', floor=1)
+def c14e(ctx):
+    """the opacity clause of _is_compatible must refuse whenever either side has an opacity (equal opacities do not
+    commute with combination: (b over a)@o != a@o then b@o)"""
+    fn = ctx.fn(SW + ':WMSSource._is_compatible')
+    tab = ctx.rows(table(fn.node.body, ret_kind))
+    a_s = [a for a in tab.atoms if 'self.opacity' in a and 'None' in a and 'other' not in a]
+    a_o = [a for a in tab.atoms if 'other.opacity' in a and 'None' in a and 'self' not in a]
+    ok = len(a_s) == 1 and len(a_o) == 1
+    if ok:
+        for asg, out, _ in tab.assignments():
+            if (not asg[a_s[0]] or not asg[a_o[0]]) and out == 'return True':
+                ok = False
+    ctx.check(ok, 'WMSSource._is_compatible:any-opacity-refuses', 'combination is refused when self.opacity or other.opacity is set (tested against None on both sides)', fn,
+              fail='sources with an opacity can be combined (e.g. when both opacities are equal): the opacity is applied once to the '
+                   'combined image instead of to each layer')
